@@ -267,6 +267,19 @@ class Interp:
                     return listof(self.field_elem[f])
             return OTHER
         if isinstance(n, ast.IfExp):
+            t = n.test
+            neg = False
+            while isinstance(t, ast.UnaryOp) and isinstance(t.op, ast.Not):
+                t, neg = t.operand, not neg
+            if isinstance(t, ast.Call) and src(t.func) == 'isinstance' and len(t.args) == 2 and src(t.args[1]) == 'list' \
+                    and isinstance(t.args[0], ast.Name):
+                nm = t.args[0].id
+                yes, no = st.copy(), st.copy()
+                if yes.shape.get(nm, OTHER) not in (FLAT, NESTED):
+                    yes.shape[nm] = FLAT
+                no.shape[nm] = SCALAR
+                a, b = (no, yes) if neg else (yes, no)
+                return join_shape(self.shape(a, n.body), self.shape(b, n.orelse))
             return join_shape(self.shape(st, n.body), self.shape(st, n.orelse))
         if isinstance(n, ast.BinOp) and isinstance(n.op, ast.Add):
             a, b = self.shape(st, n.left), self.shape(st, n.right)
@@ -300,6 +313,12 @@ class Interp:
                     return self.shape(st, f.value)
             if name in ('list', 'tuple', 'deque', 'reversed', 'sorted') and len(n.args) == 1:
                 return self.shape(st, n.args[0])
+            if name == 'from_iterable' and len(n.args) == 1 and src(f).endswith('chain.from_iterable'):
+                s0 = self.shape(st, n.args[0])           # flatten one level
+                return FLAT if s0 == NESTED else ('OVERFLAT' if s0 == FLAT else OTHER)
+            if name == 'chain' and n.args and all(isinstance(a, ast.Starred) for a in n.args) and len(n.args) == 1:
+                s0 = self.shape(st, n.args[0].value)
+                return FLAT if s0 == NESTED else ('OVERFLAT' if s0 == FLAT else OTHER)
             if name == 'chain' and n.args:
                 return OTHER
             if name in AWAITABLE_CALLS:
@@ -570,8 +589,10 @@ class Interp:
             fld = sorted(t[7:] for t in st.env.get(f.id, ()) if t.startswith('ufield:'))[0]
             self.add(st, Ev('UCALL', line, fld, argtags, None, {'node': n}))
         else:
+            a0 = n.args[0] if n.args else next((k.value for k in n.keywords if k.arg == 'x'), None)
             self.add(st, Ev('CALL', line, src(f), argtags, name,
-                            {'node': n, 'recv_tags': self.tags(st, recv) if recv is not None else frozenset()}))
+                            {'node': n, 'recv_tags': self.tags(st, recv) if recv is not None else frozenset(),
+                             'arg0_tags': self.tags(st, a0) if a0 is not None else frozenset()}))
 
     # ------------------------------------------------------------------ assignment
     def forget(self, st, ident):
@@ -957,6 +978,16 @@ class Interp:
             for k, v in cstate.shape.items():
                 if k.startswith('self.'):
                     back.shape[k] = v
+            # a list handed to the helper and filled there (acc.extend(ret)) is the caller's list
+            for p_, a_ in list(zip(params, call.args)) + [(k.arg, k.value) for k in call.keywords if k.arg]:
+                if isinstance(a_, ast.Name) and p_ in cstate.env:
+                    extra = cstate.env[p_] - back.env.get(a_.id, frozenset())
+                    if extra and any(e.kind == 'LADD' and e.a == p_ for e in cstate.events[len(s.events):]):
+                        back.env[a_.id] = back.env.get(a_.id, frozenset()) | cstate.env[p_]
+                        if cstate.shape.get(p_) == NESTED:
+                            back.shape[a_.id] = NESTED
+                        back.events.append(self._mk(Ev('LADD', call.lineno, a_.id, cstate.env[p_], 'via-helper',
+                                                       {'node': call, 'vshape': cstate.shape.get(p_, OTHER)})))
             if cstatus in ('raise',):
                 yield back, 'raise'
                 continue
@@ -1135,7 +1166,8 @@ class Interp:
             self.ev_expr(s, n.iter)
         if not const_true:
             e = s.copy()
-            self.add(e, Ev('LOOPEXIT', n.lineno, i, None, 'cond', {'node': n}))
+            self.add(e, Ev('LOOPEXIT', n.lineno, i, None, 'cond',
+                           {'node': n, 'iter_tags': self.tags(s, n.iter) if not is_while else frozenset()}))
             if is_while:
                 key, neg = self.cond_key(n.test, e)
                 e.conds.append((key, neg))
